@@ -449,10 +449,19 @@ class RealRun(object):
         net.ssl.serverFingerprints.setValue(['sha256:' + '0' * 64] if c.get('fingerprints') else [])
         self.w.clock.t = c['now']
         del self.b.excs[:]
+        self.trace = []
+        self._new_irc()
+        self.c = c
+        self.ops = []
+        self.lines = [cfg_line(dict(cfg, certvalidation=c['certvalidation']), real=True,
+                               servers=[(h, p, False) for h, p in self.servers])]
+        self.obs = []
+        self.drv = None
+
+    def _new_irc(self):
         for i in list(self.b.world.ircs):
             self.b.world.ircs.remove(i)
         self.irc = self.b.irclib.Irc('test')
-        self.trace = []
         irc = self.irc
         feed = irc.feedMsg; reset = irc.reset; tr = self.trace
         def feedMsg(msg, tag=True):
@@ -462,12 +471,51 @@ class RealRun(object):
             tr.append(('reset',))
             return reset()
         irc.feedMsg = feedMsg; irc.reset = reset_
-        self.c = c
-        self.ops = []
-        self.lines = [cfg_line(dict(cfg, certvalidation=c['certvalidation']), real=True,
-                               servers=[(h, p, False) for h, p in self.servers])]
-        self.obs = []
-        self.drv = None
+
+    def restart(self, now):
+        """the bot is stopped and started again: the networks database (STS policies, disconnection times) is
+        written to its file and read back, a new Irc object and a new SocketDriver are created"""
+        if getattr(self, 'crashed', None):
+            return self.obs[-1]
+        b = self.b
+        self.ops.append(('restart', now))
+        self.lines.append('restart\t%d' % now)
+        self.w.clock.t = now
+        nets = b.ircdb.networks
+        net = nets.getNetwork('test')
+        before = {'policies': dict(net.stsPolicies), 'lastdisc': dict(net.lastDisconnectTimes),
+                  'current': tuple(self.drv.currentServer), 'connected': False}
+        old_name, old_noflush = nets.filename, nets.noFlush
+        nets.filename = os.path.join(b.dir, 'networks-vt.conf'); nets.noFlush = False
+        try:
+            nets.flush()
+            nets.reload()
+        finally:
+            nets.filename, nets.noFlush = old_name, old_noflush
+        self.w.S.SocketDriver._instances[:] = []
+        del self.w.D._newDrivers[:]
+        self.w.sent = []; self.w.events = []
+        del self.trace[:]
+        del b.excs[:]
+        self._new_irc()
+        crash = None
+        try:
+            self.drv = self.w.S.SocketDriver(self.irc)
+        except Exception as e:
+            crash = '%s: %s' % (type(e).__name__, e)
+            self.crashed = crash
+            class _Dead(object):
+                connected = False; servers = []; nextReconnectTime = None; inbuffer = b''
+            d = _Dead(); d.currentServer = b.drivers.Server(self.servers[0][0], self.servers[0][1], None, False)
+            self.drv = d
+        else:
+            self.irc.driver = self.drv
+            self.drv._sendIfMsgs()
+        o = self._observe()
+        o.x['crash'] = crash
+        o.x['before'] = before; o.x['now'] = now; o.x['restart'] = True
+        self.obs.append(o)
+        return o
 
     def _observe(self):
         irc = self.irc; w = self.w; b = self.b
@@ -695,6 +743,8 @@ def real_oracle(run):
     sock_lines = {}             # socket id -> lines sent on it so far
     for op, o in zip(run.ops, run.obs):
         x = o.x
+        if op[0] == 'restart':
+            success = False; pending_upgrade = None
         if x.get('crash'):
             bad.append(('driver_crash', 'SocketDriver / SocketDriver.run() raised %s (drivers.run would remove the driver for good); stored policies: %r' % (x['crash'], x['policies'])))
         # --- sasl.required on the wire ("succeeded" = 903 received inside a SASL exchange, this epoch)
@@ -727,6 +777,20 @@ def real_oracle(run):
                 bad.append(('epoch_clean', 'socket %d (opened while processing a chunk received on socket %d) was sent %r, expected only the connect messages %r' % (sid, dl[0], got, want)))
         if dl is not None and (x['sock'] > dl[0] or not x['connected']) and x['inbuffer']:
             bad.append(('epoch_clean', 'after the reconnect the driver still buffers %r received on the old connection' % x['inbuffer']))
+        if op[0] == 'restart':
+            # what was stored survives the restart (written to networks.conf and read back) and is applied to the
+            # first connection of the new process
+            bp = x['before']
+            for e in x['events']:
+                if e[0] == 'connected':
+                    _check_applied(bad, c, e, dict(bp['policies']), dict(bp['lastdisc']), x['now'], certval)
+            for k, v in bp['policies'].items():
+                pp = policy_port(v, need_duration=True)
+                ld = bp['lastdisc'].get(k)
+                expired = pp is not None and ld is not None and ld + pp[1] < x['now']
+                if x['policies'].get(k) != v and not expired and pp is not None:
+                    bad.append(('sts_applied', 'the STS policy %r stored for %s did not survive the restart (networks database written and read back): now %r' % (v, k, x['policies'].get(k))))
+            continue
         if op[0] != 'run':
             # first connection
             for e in x['events']:
@@ -840,7 +904,14 @@ def gen_sts_line(r):
     if r.random() < 0.15:
         caps.append('sts=' + gen_policy(r))
     r.shuffle(caps)
+    if r.random() < 0.2:
+        # other white space than the blank inside the list (str.split() takes it as a separator too)
+        caps.insert(r.randint(0, len(caps)), r.choice(['1', 'x', 'batch']))
+        return r.choice(['CAP * LS :', 'CAP * LS :', 'CAP * LS * :', 'CAP * NEW :']) + ''.join(
+            c + r.choice([' ', ' ', WS_ODD[r.randrange(len(WS_ODD))]]) for c in caps).rstrip(' ')
     return r.choice(['CAP * LS :', 'CAP * LS :', 'CAP * LS * :', 'CAP * NEW :']) + ' '.join(caps)
+
+WS_ODD = ['\t', '\x0b', '\x0c', '\xa0', '\x1f', '\u2003', ' \t', '\t ']
 
 def gen_real_cfg(r):
     c = gen_cfg(r, 'real')
@@ -883,6 +954,9 @@ def script_real(r, cfg, n):
             else:
                 lines.append(gen_adv_line(r, run.obs[-1]))
         run.run(now, r.random() < 0.6, lines, 'PARTIAL' if r.random() < 0.1 else None)
+        if r.random() < 0.12:
+            now += r.choice([1, 60, 2000])
+            run.restart(now)
     run.close()
     return run
 
@@ -914,6 +988,8 @@ def run_real(cfg, ops):
     for op in ops:
         if op[0] == 'dstart':
             run.start()
+        elif op[0] == 'restart':
+            run.restart(op[1])
         else:
             run.run(op[1], op[2], op[3], op[4] if len(op) > 4 else None)
     run.close()
@@ -1000,6 +1076,7 @@ def safety_oracle(ops, obs, cfg=None):
     answered = set()          # every capability the server ACKed or NAKed during the negotiation of this epoch
     srv_ack = set(); srv_nak = set()   # … ACKed / NAKed at any time in this epoch
     nicks = set(m.args[0] for m in obs[0].msgs if m.command == 'NICK' and m.args)   # every nick asked for in this epoch
+    partial = []              # the 400-character AUTHENTICATE lines of the server message that is being received
     prev = obs[0]
     cfg_next = cfg; cfg_epoch = cfg; changed = False
     for op, o in zip(ops, obs[1:]):
@@ -1012,6 +1089,7 @@ def safety_oracle(ops, obs, cfg=None):
         if op[0] == 'reset':
             ends = 0; aborted = False; sasl_acked = False; welcomed = False; answered = set(); srv_ack = set(); srv_nak = set()
             nicks = set(m.args[0] for m in o.msgs if m.command == 'NICK' and m.args)
+            partial = []
             cfg_epoch = cfg_next
             if not changed and o.s.split('\t')[:13] != obs[0].s.split('\t')[:13]:
                 bad.append(('reset_fresh', 'after reset the observable state differs from a new Irc: %r vs %r' % (o.s, obs[0].s)))
@@ -1069,6 +1147,26 @@ def safety_oracle(ops, obs, cfg=None):
             if len(t) >= 4 and t[0] == 'CAP' and t[2] == 'LS' and t[3].startswith(':') and prev.fsm == 'INIT_CAP_NEGOTIATION':
                 if not o.calls and not any(m.command == 'CAP' and m.args[:1] in (('REQ',), ('END',)) for m in o.msgs):
                     bad.append(('progress', 'the final CAP LS %r was answered neither by CAP REQ nor by CAP END nor by an abort (state %s): the bot waits for something the server will not send' % (trigger, o.fsm)))
+            # the AUTHENTICATE decoder holds exactly the lines of the server message being received on this connection
+            # (nothing left over from an abandoned exchange), and an empty challenge is answered as one
+            fdec = o.s.split('\t')[9]
+            m_ = parse_line(boot(), trigger)
+            if m_ is not None and m_.command == 'AUTHENTICATE' and m_.args and prev.fsm in FSM_SASL:
+                empty_challenge = (m_.args[0] == '+' and not partial)
+                if m_.args[0] != '+':
+                    partial.append(m_.args[0])
+                if empty_challenge and o.exc == '-' and cfg_epoch is not None and prev.s.split('\t')[7] == wire.enc_opt('ecdsa-nist256p-challenge'):
+                    want = base64.b64encode(full_cfg(cfg_epoch)['sasluser'].encode('utf-8')).decode()
+                    got = ''.join(m.args[0] for m in o.msgs if m.command == 'AUTHENTICATE' and m.args and m.args[0] != '+')
+                    if got != want:
+                        bad.append(('sasl_answer', 'the empty ECDSA challenge (AUTHENTICATE +, nothing pending) was not answered with the account name: sent %r' % ([(m.command,) + tuple(m.args) for m in o.msgs],)))
+            if fdec == '~':
+                partial = []
+            else:
+                held = wire.dec_list(fdec.split(':', 1)[1])
+                if held != partial:
+                    bad.append(('decoder_leak', 'the AUTHENTICATE decoder holds %d line(s) %r but %d line(s) of an unfinished server message arrived on this connection' % (len(held), [h[:12] for h in held], len(partial))))
+                    partial = list(held)
             # the bot's record of the answers holds nothing the server did not say (a CAP DEL turns an ACK into a refusal)
             if len(t) >= 4 and t[0].upper() == 'CAP' and t[2].upper() in ('ACK', 'NAK'):
                 m_ = parse_line(boot(), trigger)
@@ -1163,7 +1261,8 @@ def gen_cfg(r, stream):
 
 def caps_string(r, pool=CAP_POOL, lo=0, hi=6):
     n = r.randint(lo, hi)
-    return r.choice(['', '', ' ', '  ']).join([]) + ' '.join(r.choice(pool) for _ in range(n)) + r.choice(['', '', ' '])
+    sep = ' ' if r.random() < 0.93 else r.choice(['\t', '\x0b', '\xa0', ' \t', '\x1f'])
+    return r.choice(['', '', ' ', '  ']).join([]) + sep.join(r.choice(pool) for _ in range(n)) + r.choice(['', '', ' '])
 
 def gen_adv_line(r, o):
     """one adversarial server line; `o` = last observation (lets the adversary be plausible)"""
@@ -1396,6 +1495,18 @@ class ConfServer(object):
 def script_adversarial(r, cfg, n):
     run = ImplRun(cfg)
     burst = 0
+    if r.random() < 0.06 and usable_mechs(cfg):
+        # a SASL exchange abandoned in the middle of a multi-line server message, then a new one
+        S = ':' + SERVER + ' '
+        for l in [S + 'CAP * LS :sasl', S + 'CAP * ACK :sasl', 'AUTHENTICATE ' + r.choice(['a', 'Zm9v', 'QUJD']) * (400 // r.choice([1, 4]))][:3]:
+            run.msg(l if len(l) != 13 + 100 else l)
+        k = r.random()
+        if k < 0.6:
+            run.reset()
+            run.msg(S + 'CAP * LS :sasl'); run.msg(S + 'CAP * ACK :sasl')
+        elif k < 0.8:
+            run.msg(S + '%s test :SASL failure' % r.choice(['904', '906']))
+        run.msg(r.choice(['AUTHENTICATE +', 'AUTHENTICATE +', 'AUTHENTICATE ' + 'b' * 400, 'AUTHENTICATE QUJD']))
     for _ in range(n):
         x = r.random()
         if burst or x > 0.985:
